@@ -161,6 +161,157 @@ func evalSize(e ast.Expr, es int64) *big.Int {
 	return ex.Eval(e, nil, 0)
 }
 
+
+// layout extracts, structurally, which FIELD of the point goes to which byte OFFSET of the encoding
+// (review 4-C06 #3: the earlier facts pinned the names of local variables, so a harmless rename turned
+// C06/C11 red and a swap behind a renamed temporary would not have been read as one).
+// Marshal side: statements `montDecode(T, &E)` record "T currently holds field E"; `T.Marshal(A)` emits
+// (field, offset of A).  Unmarshal side: `E.Unmarshal(A)` emits (field E, offset of A).
+// E is made relative to the point: the receiver's `p.g` and any local initialised by `L := *p.g` / `L := p.g`
+// are the point itself.  A is the buffer (offset 0) or `buf[LOW:]`, LOW a constant expression in which an
+// identifier assigned from `p.ElementSize()` stands for the element size.
+func layout(fd *ast.FuncDecl, es int64, marshal bool) []string {
+	var out []string
+	if fd == nil || fd.Body == nil || fd.Recv == nil || len(fd.Recv.List) == 0 || len(fd.Recv.List[0].Names) == 0 {
+		return out
+	}
+	recv := fd.Recv.List[0].Names[0].Name
+	isG := func(e ast.Expr) bool { // recv.g
+		if st, ok := e.(*ast.StarExpr); ok {
+			e = st.X
+		}
+		se, ok := e.(*ast.SelectorExpr)
+		if !ok || se.Sel.Name != "g" {
+			return false
+		}
+		id, ok := se.X.(*ast.Ident)
+		return ok && id.Name == recv
+	}
+	alias := map[string]bool{}
+	sizeVar := map[string]bool{}
+	var rel func(e ast.Expr) (string, bool)
+	rel = func(e ast.Expr) (string, bool) {
+		switch x := e.(type) {
+		case *ast.ParenExpr:
+			return rel(x.X)
+		case *ast.UnaryExpr:
+			if x.Op == token.AND {
+				return rel(x.X)
+			}
+		case *ast.Ident:
+			if alias[x.Name] {
+				return "", true
+			}
+		case *ast.SelectorExpr:
+			if isG(x) {
+				return "", true
+			}
+			if b, ok := rel(x.X); ok {
+				if b == "" {
+					return x.Sel.Name, true
+				}
+				return b + "." + x.Sel.Name, true
+			}
+		}
+		return "", false
+	}
+	var ev func(e ast.Expr) *big.Int
+	ev = func(e ast.Expr) *big.Int {
+		switch x := e.(type) {
+		case *ast.Ident:
+			if sizeVar[x.Name] {
+				return big.NewInt(es)
+			}
+			return nil
+		case *ast.BasicLit:
+			v, ok := new(big.Int).SetString(x.Value, 0)
+			if !ok {
+				return nil
+			}
+			return v
+		case *ast.ParenExpr:
+			return ev(x.X)
+		case *ast.CallExpr:
+			if s, ok := x.Fun.(*ast.SelectorExpr); ok && s.Sel.Name == "ElementSize" {
+				return big.NewInt(es)
+			}
+		case *ast.BinaryExpr:
+			a, b := ev(x.X), ev(x.Y)
+			if a == nil || b == nil {
+				return nil
+			}
+			switch x.Op {
+			case token.ADD:
+				return a.Add(a, b)
+			case token.MUL:
+				return a.Mul(a, b)
+			}
+		}
+		return nil
+	}
+	offset := func(a ast.Expr) string {
+		switch x := a.(type) {
+		case *ast.Ident:
+			return "0"
+		case *ast.SliceExpr:
+			if x.High != nil || x.Max != nil {
+				return "?"
+			}
+			if x.Low == nil {
+				return "0"
+			}
+			if v := ev(x.Low); v != nil {
+				return v.String()
+			}
+		}
+		return "?"
+	}
+	holds := map[string]string{}
+	ast.Inspect(fd.Body, func(n ast.Node) bool {
+		switch x := n.(type) {
+		case *ast.AssignStmt:
+			if x.Tok == token.DEFINE && len(x.Lhs) == 1 && len(x.Rhs) == 1 {
+				if id, ok := x.Lhs[0].(*ast.Ident); ok {
+					if isG(x.Rhs[0]) {
+						alias[id.Name] = true
+					}
+					if c, ok := x.Rhs[0].(*ast.CallExpr); ok {
+						if s, ok := c.Fun.(*ast.SelectorExpr); ok && s.Sel.Name == "ElementSize" {
+							sizeVar[id.Name] = true
+						}
+					}
+				}
+			}
+		case *ast.CallExpr:
+			if id, ok := x.Fun.(*ast.Ident); ok && id.Name == "montDecode" && len(x.Args) == 2 {
+				if f, ok := rel(x.Args[1]); ok {
+					holds[sel(x.Args[0])] = f
+				} else {
+					holds[sel(x.Args[0])] = "?" + sel(x.Args[1])
+				}
+			}
+			if s, ok := x.Fun.(*ast.SelectorExpr); ok && len(x.Args) == 1 {
+				if marshal && s.Sel.Name == "Marshal" {
+					f, ok := holds[sel(s.X)]
+					if !ok {
+						f = "?" + sel(s.X)
+					}
+					out = append(out, f+"@"+offset(x.Args[0]))
+				}
+				if !marshal && s.Sel.Name == "Unmarshal" {
+					f, ok := rel(s.X)
+					if !ok {
+						f = "?" + sel(s.X)
+					}
+					out = append(out, f+"@"+offset(x.Args[0]))
+				}
+			}
+		}
+		return true
+	})
+	return out
+}
+
 func retExpr(fd *ast.FuncDecl) ast.Expr {
 	if fd == nil || fd.Body == nil {
 		return nil
@@ -381,6 +532,11 @@ func run(repo string) (string, error) {
 			return "", fmt.Errorf("point.go %s: MarshalBinary/UnmarshalBinary not found", t)
 		}
 		// order in which the coordinates are written / read
+		if t != "pointGT" {
+			esz := evalSize(retExpr(ex.FuncDecl(pf, t, "ElementSize")), 0).Int64()
+			fmt.Fprintf(&b, "def %s_marshalLayout : List String := %s\n", t, leanList(layout(ex.FuncDecl(pf, t, "MarshalBinary"), esz, true)))
+			fmt.Fprintf(&b, "def %s_unmarshalLayout : List String := %s\n", t, leanList(layout(ex.FuncDecl(pf, t, "UnmarshalBinary"), esz, false)))
+		}
 		fmt.Fprintf(&b, "def %s_marshalOrder : List String := %s\n", t, leanList(filter(m, "montDecode ", "")))
 		fmt.Fprintf(&b, "def %s_unmarshalOrder : List String := %s\n", t, leanList(filter(u, "", ".Unmarshal")))
 		fmt.Fprintf(&b, "def %s_montEncodeOrder : List String := %s\n", t, leanList(filter(u, "montEncode ", "")))
